@@ -263,13 +263,31 @@ ADDENDA4 = {
     'C20': ' Round 4: cyclic states with several outputs (the cycle below an output that other gates read; a cycle no output reaches).',
 }
 
+ADDENDA5 = {
+    'C01': ' Histories: get_truth_table, evaluate_full_circuit and evaluate_circuit are folded at random points of seeded and scripted histories of public mutations on ONE instance of the repository\'s Circuit class (C01.HIST), before and after edits, densely and sparsely observed: every answer is the oracle value of the state as it is then (a remembered answer shows).',
+    'C02': ' Histories re-use names of deleted blocks whose gates are still there, pass a sequence argument as one string that is itself a label, and draw the same gate in every operand position; top_sort is observed inside them.',
+    'C03': ' The passes are folded on instances of the repository\'s own Circuit / Gate classes (operands-first and users-first storage) before the oracle-traversal runs; post-conditions are re-applied on those instances.',
+    'C04': ' The synthesiser oracle has a third form that answers like the real one -- a circuit of EXACTLY the requested number of gates, idle and pseudo-unary (LNOT) gates included, last in enumeration order; the result of a run is minimised once more (when it is still over the supported gate set); C06.FIND is run as a shared rule.',
+    'C05': ' The CNF object of one circuit is requested twice with add_clause in between (no shared state); selections [] and re-ordered inputs are folded.',
+    'C06': ' C06.FIND: find_circuit is folded end to end with a model DPLL solver in place of pysat for every two-input function, one and two gates, AIG and XAIG: a circuit is returned exactly when one of that size exists in the basis and it computes the function with gates of the basis; a forbid_wire between two searches of one finder is obeyed by the second; a normalised search set up earlier in the process does not change what later finders find. Not decided by it: larger functions / sizes, the real solver, time limits.',
+    'C09': ' C09.NUM instantiates subtraction, division, square root and the comparison / if-then-else gadgets as they stand, including coinciding operand labels.',
+    'C10': ' Constants as connectors, rename after a composition with a repeated connector, re-slicing a created block by its interface.',
+    'C11': ' The round trip through an in-memory file is repeated after the file is overwritten by another text of the same length; comment lines with unbalanced brackets.',
+    'C12': ' C12.HIST: the circuit representation answers inside histories of mutations (incl. set_inputs re-ordering) like the oracle; symmetry queries on four-input functions.',
+    'C14': ' C14.DRAW: into_graphviz_digraph(as_bench=True), the second observation point, is folded with a recording stand-in for graphviz.Digraph: nodes, wires and block clusters drawn are those of the converted copy (helper gates inside the clusters of the blocks of the rewritten gate), the drawn circuit is untouched.',
+    'C15': ' C15.HIST: partial and total evaluation observed inside histories.',
+    'C17': ' C17.MIN looks up every two-input table with don\'t-cares in an in-memory database of circuits of different sizes written by the repository\'s own writer; a lookup is repeated after its result was edited (no shared decoded object).',
+    'C18': ' Pipelines are folded on instances of the repository\'s classes: repeated non-idempotent passes, generators / iterators as pass lists, cleanup(c) after cleanup(c, use_heavy=True), users-first storage, the result must be a new object.',
+    'C20': ' C20.HIST: top_sort in both directions observed inside histories, also on a state a returning public call left with a broken users index.',
+}
+
 def main():
     checks = []
     for p in ALL:
         if p not in CLAIMS:
             continue
         tech, text, ref = CLAIMS[p]
-        text = text + ADDENDA.get(p, '') + ADDENDA3.get(p, '') + ADDENDA4.get(p, '')
+        text = text + ADDENDA.get(p, '') + ADDENDA3.get(p, '') + ADDENDA4.get(p, '') + ADDENDA5.get(p, '')
         checks.append({
             'property_id': p,
             'quick_cmd': f'{PY} -m cirbo_verif check {p} --tier quick',
